@@ -274,3 +274,71 @@ func (s *Stats) Add(v Value, depth int) {
 		}
 	}
 }
+
+// WithBool1 returns v with every BOOL element type of lists and sets (lists)
+// and every BOOL key / value type of maps (maps) marked to be announced as 1.
+func WithBool1(v Value, lists, maps bool) Value {
+	out := v
+	switch v.T {
+	case List, Set:
+		out.ET1 = lists && v.ET == Bool
+	case Map:
+		out.ET1 = maps && v.ET == Bool
+		out.KT1 = maps && v.KT == Bool
+	}
+	if v.Elems != nil {
+		out.Elems = make([]Value, len(v.Elems))
+		for i := range v.Elems {
+			out.Elems[i] = WithBool1(v.Elems[i], lists, maps)
+		}
+	}
+	if v.Keys != nil {
+		out.Keys = make([]Value, len(v.Keys))
+		for i := range v.Keys {
+			out.Keys[i] = WithBool1(v.Keys[i], lists, maps)
+		}
+	}
+	if v.Fields != nil {
+		out.Fields = make([]Field, len(v.Fields))
+		for i, f := range v.Fields {
+			out.Fields[i] = Field{ID: f.ID, V: WithBool1(f.V, lists, maps)}
+		}
+	}
+	return out
+}
+
+// HasBool1 reports whether v holds a list/set (lists) or a non-empty map (maps)
+// whose BOOL element / key / value type is marked to be announced as 1.
+func HasBool1(v Value, lists, maps bool) bool {
+	switch v.T {
+	case List, Set:
+		if lists && v.ET1 {
+			return true
+		}
+	case Map:
+		if maps && len(v.Elems) > 0 && (v.ET1 || v.KT1) {
+			return true
+		}
+	}
+	for _, x := range v.Elems {
+		if HasBool1(x, lists, maps) {
+			return true
+		}
+	}
+	for _, x := range v.Keys {
+		if HasBool1(x, lists, maps) {
+			return true
+		}
+	}
+	for _, f := range v.Fields {
+		if HasBool1(f.V, lists, maps) {
+			return true
+		}
+	}
+	return false
+}
+
+// HasBoolMap reports whether v holds a non-empty map with a BOOL key or value type.
+func HasBoolMap(v Value) bool {
+	return HasBool1(WithBool1(v, false, true), false, true)
+}
